@@ -17,7 +17,7 @@ CATALOG = {
             # two seeds and one operation: the programs that are replayed
             {"module": "MC_Ring", "cfg": {"quick": "MC_Ring_quick", "thorough": "MC_Ring_thorough"},
              "extract": "ring_programs", "replay": "run_ring_program",
-             "limit": {"quick": 5000, "thorough": 250000}}],
+             "limit": {"quick": 5000, "thorough": 150000}}],
     },
     "C02": {
         "drivers": [("call", {"quick": 400, "thorough": 15000}, {})],
